@@ -196,6 +196,15 @@ impl<'tcx> Cx<'tcx> {
         }
         if let Some(v) = self.scalar_of_const(&konst, env) {
             o = o.s("int", &v.to_string());
+        } else if matches!(ty.kind(), ty::Adt(..)) {
+            // newtype-over-integer / field-less enum constants (http::StatusCode, http::Version):
+            // constant-folded by the compiler to a scalar
+            if let Ok(mir::ConstValue::Scalar(rustc_middle::mir::interpret::Scalar::Int(si))) =
+                konst.eval(self.tcx, env, rustc_span::DUMMY_SP)
+            {
+                let size = si.size();
+                o = o.s("scalar", &si.to_uint(size).to_string());
+            }
         }
         // string / byte-string literals
         if let Some(s) = self.str_of_const(&konst, env) {
